@@ -71,6 +71,25 @@ def make_jobs(chk):
             for t in throwing:
                 n += 1
                 jobs.append(SessionJob("e%d:throw:%s" % (n, sv), b"\x51\x52\x93", [], fl, sv, cmds=["step", "exec " + " ".join(t), "steps"], cmp=CMP))
+    # a step that throws, then execs (the REPL lets the user go on): each exec reports its own error and acts on the untouched stacks
+    after = ["exec OP_VERIFY", "exec OP_FROMALTSTACK", "exec OP_DROP OP_VERIFY", "exec OP_DROP OP_DROP OP_DROP", "exec 7 OP_TOALTSTACK", "exec OP_1ADD", "exec OP_IF", "exec OP_ENDIF",
+             "exec OP_RETURN", "exec 0102030405 OP_NEGATE", "exec OP_DUP OP_EQUALVERIFY OP_1"]
+    for sv in ("BASE", "WITNESS_V0", "TAPSCRIPT"):
+        for fl in ([], drivers.STANDARD):
+            for k in range(0, len(after), 3):
+                n += 1
+                jobs.append(SessionJob("e%d:afterthrow:%s" % (n, sv), b"\x51\x05\x00\x00\x00\x00\x00\x8b\x52", [], fl, sv, cmds=["step", "step", "step"] + after[k:k + 3] + after[:2], cmp=CMP))
+                n += 1
+                jobs.append(SessionJob("e%d:afterthrow2:%s" % (n, sv), b"\x00\x02\x01\x00\x8f\x52", [], ["MINIMALDATA"] + fl, sv, cmds=["step", "step", "step"] + after[k:k + 3], cmp=CMP))
+    # tapscript: exec'd signature checks draw on the same validation-weight budget as the script's own (unknown key type: success, charged 50)
+    sig64 = "01" * 64; key33 = "02" + "11" * 32
+    chk1 = "%s %s OP_CHECKSIG" % (sig64, key33)
+    for w in (0, 49, 50, 120, 170):
+        for pat in (["exec " + chk1] * 4, ["exec " + chk1 + " OP_DROP " + chk1, "exec " + chk1], ["step", "exec " + chk1, "step", "step", "step", "exec " + chk1, "steps"],
+                    ["exec OP_CODESEPARATOR", "exec " + chk1, "exec " + chk1]):
+            n += 1
+            jobs.append(SessionJob("e%d:budget:%d" % (n, w), bytes.fromhex("40" + sig64 + "21" + key33) + bytes([O["CHECKSIG"], O["DROP"], O["1"]]), [], [], "TAPSCRIPT",
+                                   cmds=pat + ["steps"], cmp=CMP + ["weight"], weight=w))
     # op-count budget shared between script and exec: near the limit
     base = b"\x51" + bytes([O["NOP"]]) * 150
     for extra in (49, 50, 51, 52):
